@@ -257,6 +257,12 @@ type TimingOpts struct {
 	// consists of s_endpgm only and declares that many scalar / vector registers runs to completion on the same
 	// CU (state that a CU keeps across kernels - scratch buffers, pools, allocation cursors - is then not fresh).
 	WarmSGPRs, WarmVGPRs int
+	// Before != nil: launch history with a whole kernel. The kernel Before runs to completion with geometry
+	// BeforeGeo on the same CU first (its own code address and kernel arguments); the environment then restores
+	// the data buffers, so that the kernel under test starts from the usual memory but from a CU that has state
+	// left by another kernel (pools, caches, scratch buffers, LDS, allocation cursors).
+	Before    *Kernel
+	BeforeGeo Geometry
 	// MI300AKnobs: the compute-unit parameters of the mi300a timing platform instead of the builder's defaults
 	// (wavefront pool 8, vector-memory instruction pipeline 2 stages, transaction pipeline 4 stages x 8 wide,
 	// memory pipeline buffer 64, coalescing penalty 3 cycles for sparsely used read lines). Timing parameters may
@@ -453,9 +459,9 @@ func RunTiming(x *explore.Exec, k *Kernel, g Geometry, o TimingOpts) (res *Resul
 	running := 0
 	doneWG := map[int]bool{}
 	mapIDs := map[string]int{}
-	// launch history: the warm-up work-group goes first and must complete before the kernel's first work-group
-	warmID, warmDone := "", o.WarmSGPRs+o.WarmVGPRs == 0
-	if !warmDone {
+	// launch history: the warm-up work-group(s) go first and must complete before the kernel's first work-group
+	warmIDs, warmLeft := map[string]bool{}, 0
+	if o.WarmSGPRs+o.WarmVGPRs > 0 {
 		wco, wpkt := codeObject(k, Geometry{WGSize: 64, NumWG: 1})
 		wco.WFSgprCount, wco.WIVgprCount = uint16(o.WarmSGPRs), uint16(o.WarmVGPRs)
 		wco.GroupSegmentByteSize, wpkt.GroupSegmentSize = 0, 0
@@ -465,9 +471,35 @@ func RunTiming(x *explore.Exec, k *Kernel, g Geometry, o TimingOpts) (res *Resul
 		wwg := gb.NextWG()
 		req := protocol.MapWGReqBuilder{}.WithSrc(ace).WithDst(toACE.AsRemote()).WithPID(1).WithWG(wwg).
 			AddWf(protocol.WfDispatchLocation{Wavefront: wwg.Wavefronts[0], SIMDID: 0}).Build()
-		warmID = req.ID
+		warmIDs[req.ID] = true
+		warmLeft++
 		aceF.Add(req, false)
 	}
+	const beforeCode, beforeKernarg = Code + 0x1800, Kernarg + 0x800
+	pristine := append([]byte{}, memory[:Code]...) // without the preceding kernel's arguments
+	if o.Before != nil {
+		bg := o.BeforeGeo
+		copy(memory[beforeCode:], o.Before.Code)
+		copy(memory[beforeKernarg:beforeKernarg+64], memory[Kernarg:Kernarg+64])
+		binary.LittleEndian.PutUint32(memory[beforeKernarg+16:], uint32(bg.WGSize-1))
+		bco, bpkt := codeObject(o.Before, bg)
+		bpkt.KernelObject, bpkt.KernargAddress = beforeCode, beforeKernarg
+		gb := kernels.NewGridBuilder()
+		gb.SetKernel(kernels.KernelLaunchInfo{CodeObject: bco, Packet: bpkt, PacketAddr: 0x1900})
+		for i := 0; i < gb.NumWG(); i++ {
+			wg := gb.NextWG()
+			rb := protocol.MapWGReqBuilder{}.WithSrc(ace).WithDst(toACE.AsRemote()).WithPID(1).WithWG(wg)
+			for j, wf := range wg.Wavefronts {
+				n := i*len(wg.Wavefronts) + j
+				rb = rb.AddWf(protocol.WfDispatchLocation{Wavefront: wf, SIMDID: n % 4, SGPROffset: n * 64 * 4, VGPROffset: (n / 4) * 32 * 4, LDSOffset: i * ldsBytes(bg)})
+			}
+			req := rb.Build()
+			warmIDs[req.ID] = true
+			warmLeft++
+			aceF.Add(req, false)
+		}
+	}
+	warmDone := warmLeft == 0
 	mapNext := func() {
 		for warmDone && next < len(wgs) && running < o.Resident {
 			wg := wgs[next]
@@ -492,8 +524,13 @@ func RunTiming(x *explore.Exec, k *Kernel, g Geometry, o TimingOpts) (res *Resul
 			return
 		}
 		for _, id := range cmsg.RspTo {
-			if id == warmID && !warmDone {
-				warmDone = true
+			if warmIDs[id] {
+				delete(warmIDs, id)
+				warmLeft--
+				if warmLeft == 0 {
+					warmDone = true
+					copy(memory[:Code], pristine) // the kernel under test starts from the usual data
+				}
 				continue
 			}
 			i, ok := mapIDs[id]
